@@ -7,7 +7,7 @@ From Coq Require Import ZArith List Bool Lia ZifyBool.
 Import ListNotations.
 Open Scope Z_scope.
 
-Ltac pcbn := cbn [parsers_of p_info_size p_unit p_die p_abbrev_size p_abbrev p_lphdr p_lpbody p_cfi p_cfi_count p_cfi_kind p_cfi_table
+Ltac pcbn := cbn [parsers_of p_info_size p_unit p_die p_types_size p_tu p_abbrev_size p_abbrev p_lphdr p_lpbody p_cfi p_cfi_count p_cfi_kind p_cfi_table
                   p_stream_len p_shoff p_shnum p_shentsize p_shstr_base p_shdr p_cstr p_phoff p_phentsize
                   p_phdr p_sym_base p_sym_entsize p_sym_count p_strtab_base p_sym p_dyn_base p_dyn_entsize p_dyn].
 
